@@ -174,7 +174,9 @@ def rand_battery(rng, request, kinds=("ideal", "l2c", "l2s"), noise_p=0.0, big=F
         free = request * rng.choice([1.0, 1.2, 3.0]) + rng.choice([0, 0.5])
         init = rng.choice([0, 5, 20])
         return {"t": "user", "cap": max(init + free, 0.5), "init": init, "maxp": rng.choice([3.3, 6.6, 11, 50])}
-    free = request * rng.choice([1.0, 1.0, 1.2, 3.0]) + rng.choice([0, 0, 0.5])
+    # (room in the battery: exactly the request, more, or - one in nine - LESS than the request: such a car fills up with its
+    # demand still unmet and stays a connected, unsatisfied session until it leaves)
+    free = request * rng.choice([1.0, 1.0, 1.2, 3.0, 1.0, 1.0, 1.2, 3.0, 0.6]) + rng.choice([0, 0, 0.5])
     init = rng.choice([0, 0, 5, 20, 60])
     cap = init + free
     if cap <= 0:
